@@ -221,6 +221,20 @@ def run(ctx, spec):
                     what=f"make_benchmark_scenario('{name}') with the global generator seeded to {100 + s0} builds a "
                          f"different scenario after make_benchmark_scenario('{name}', seed={3 + s0}) was called first",
                     name=name))
+    # ---- a seeded generation late in this process (many scenarios were generated before) equals the same seeded
+    # generation as the FIRST thing a fresh process does
+    from check_gen import sub_fingerprints
+    for name in ("small-gen", "medium-gen")[:1 if tier == "quick" else 2]:
+        seeds_ = list(range(4, 10 if tier == "quick" else 24))
+        heres = [fingerprint(nasim.make_benchmark_scenario(name, seed=s0)) for s0 in seeds_]
+        freshs = [sub_fingerprints([dict(kind="bench", name=name, seed=s0)], 0)[0] for s0 in seeds_]   # one process each
+        for s0, here, fresh in zip(seeds_, heres, freshs):
+            out["evaluations"] += 1
+            if here != fresh:
+                out["violations"].append(dict(
+                    kind="construction-history", property=pid, failing_input_found=True, signature=None,
+                    what=f"make_benchmark_scenario('{name}', seed={s0}) late in a process that generated other scenarios before "
+                         "differs from the same call as the first generation of a fresh process", name=name))
     # ---- loading a document must not depend on the documents loaded before it
     import copy
     import check_load
